@@ -1028,7 +1028,7 @@ func (fx *FuncCtx) loadHeap(st *State, prefix string, ref Term, t types.Type) Va
 		if fx.inQuant > 0 {
 			return sv
 		}
-		st.assume(And(Ge(sv.Rid, IntLit(0)), Ge(sv.Off, IntLit(0)), Ge(sv.Len, IntLit(0)), Le(sv.Len, sv.Cap), Implies(Eq(sv.Rid, IntLit(0)), Eq(sv.Cap, IntLit(0)))))
+		st.assume(And(Ge(sv.Rid, IntLit(0)), Ge(sv.Off, IntLit(0)), Ge(sv.Len, IntLit(0)), Le(sv.Len, sv.Cap), Lt(sv.Cap, capBound(u.Elem())), Implies(Eq(sv.Rid, IntLit(0)), Eq(sv.Cap, IntLit(0)))))
 		return sv
 	case *types.Array:
 		es := fx.elemSort(u.Elem())
